@@ -88,6 +88,32 @@ def gen_cases(tier, seed):
                         spec['plan']['gate'] = {'match': 's3:UploadPart', 'phase': rng.choice(['before', 'after']),
                                                 'policy': rng.choice(['reverse', 'lowest_last', 'seeded'])}
                     cases.append(spec)
+    # the SOURCE STREAM's own seek() fails at some point - in particular at the rewind the client does before it retries a request: the
+    # upload fails then; it never succeeds with other bytes
+    for k in range(0, 7):
+        for rep in range(1 if tier == 'quick' else 4):
+            T, C = 16, 8
+            size = rng.choice([5, 9, 15])
+            t = {'kind': 'upload', 'src': 'seekable', 'size': size, 'start': rng.choice([0, 3]), 'flavor': rng.choice(['declared', 'duck'])}
+            cases.append({'seed': rng.randrange(1 << 30), 'min_part': C, 'family': 'source-seek-fails',
+                          'config': dict(multipart_threshold=T, multipart_chunksize=C, max_request_concurrency=2), 'transfers': [t],
+                          'client': {'checksum': rng.choice(['when_supported', 'when_required']), 'scheme': rng.choice(['https', 'http'])},
+                          'body_read_sizes': rng.choice([[8192], [3]]),
+                          'plan': {'faults': [{'at': 't0/s3:PutObject#0', 'phase': 'mid', 'bytes': rng.randrange(1, size + 1), 'kind': 'retry500', 'tag': 'FAULT-r0'},
+                                              {'at': f't0/src:seek#{k}', 'phase': 'before', 'kind': 'oserror', 'tag': 'FAULT-seek'}]}})
+    # ... the same for a source FILE (multipart: a part's rewind that silently does nothing leaves the file at the NEXT part's bytes)
+    for k in range(0, 10):
+        for rep in range(1 if tier == 'quick' else 3):
+            C = 8
+            size = 3 * C + rng.choice([0, 3])
+            pn = rng.choice([1, 2])
+            cases.append({'seed': rng.randrange(1 << 30), 'min_part': C, 'family': 'source-seek-fails',
+                          'config': dict(multipart_threshold=C, multipart_chunksize=C, max_request_concurrency=rng.choice([1, 2])),
+                          'transfers': [{'kind': 'upload', 'src': 'path', 'size': size}],
+                          'client': {'checksum': rng.choice(['when_supported', 'when_required']), 'scheme': rng.choice(['https', 'http'])},
+                          'body_read_sizes': rng.choice([[8192], [3]]),
+                          'plan': {'faults': [{'at': f't0/s3:UploadPart:{pn}#0', 'phase': 'mid', 'bytes': rng.randrange(1, C + 1), 'kind': 'retry500', 'tag': 'FAULT-r0'},
+                                              {'at': f't0/fs:seek#{k}', 'phase': 'before', 'kind': 'oserror', 'tag': 'FAULT-seek'}]}})
     # all completion orders of <= 4 parts (thorough) / 3 parts (quick)
     n = 3 if tier == 'quick' else 4
     for perm in itertools.permutations(range(1, n + 1)):
